@@ -50,8 +50,7 @@ def classify_cob(M, e, fmax):
     N = 1 << e
     a, b, c, d = [x % N for x in M]
     cls = []
-    if e < fmax and 0 in (a, b, c, d, (a - b) % N, (c - d) % N):
-        cls.append(K_APP_ZERO)
+    # (zero scalars at e < POWER_OF_2 were a finding — K_APP_ZERO — fixed by 76cbdb3: no longer a degenerate class)
     c1, c2 = (a, c), (b, d)
     if col_order_log(c1, e) <= 2 or col_order_log(c2, e) <= 2:
         cls.append(K_COB_LOW)
@@ -120,6 +119,16 @@ def gen_mats(rng, e, fmax):
         M = tuple(rng.below(N) for _ in range(4))
         if (M[0] * M[3] - M[1] * M[2]) % 2 == 1 and not classify_cob(M, e, fmax):
             out.append((M, "invertible"))
+    # consecutive scalars of differing limb counts in the reused digit buffers of matrix_application_even_basis
+    if e > 70:
+        big = lambda: (1 << (64 + rng.below(e - 64))) | rng.below(1 << 64) | 1
+        small = lambda: 2 + rng.below(1 << 40)
+        c = big()
+        for M, tag in (((c, 0, 0, c), "limbs:scalar-endomorphism"), ((big(), small(), small() | 1, big() ^ 1), "limbs:big-small"),
+                       ((small() | 1, big(), big() ^ 1, small()), "limbs:small-big"), ((big(), big(), small() | 1, small() & ~1), "limbs:rows")):
+            M = tuple(x % N for x in M)
+            if not classify_cob(M, e, fmax):
+                out.append((M, tag))
     tries = 0
     while len([m for m in out if m[1] == "singular"]) < 3 and tries < 200:
         tries += 1
